@@ -1,5 +1,6 @@
 import GoCrypt.Gen.Facts
 import GoCrypt.Proofs.Base64
+import GoCrypt.Props.C16Decode
 
 /-!
 # C16 — the little-endian base64 of crypt(3)
@@ -275,5 +276,17 @@ theorem exported_encodings :
 #print axioms corrupt_rejected
 #print axioms strict_rejects_unused_bits
 #print axioms exported_encodings
+-- the decode direction for ALL texts (Props/C16Decode.lean): the model's Decode equals an independent declarative reference
+-- decoder (Spec/Base64Ref.lean), result bytes and error offsets; accepted texts are canonical up to the tolerated unused bits
+#print axioms GoCrypt.C16Decode.decode_eq_ref
+#print axioms GoCrypt.C16Decode.decode_never_panics
+#print axioms GoCrypt.C16Decode.decode_ok_iff_ref
+#print axioms GoCrypt.C16Decode.decode_error_iff_ref
+#print axioms GoCrypt.C16Decode.accepted_is_canonical_or_tolerated
+#print axioms GoCrypt.C16Decode.never_silent_garbage
+#print axioms GoCrypt.C16Decode.regroup_inverts_spec
+#print axioms GoCrypt.C16Decode.malformed_rejected
+#print axioms GoCrypt.C16Decode.nothing_after_padding
+#print axioms GoCrypt.C16Decode.incomplete_rejected
 
 end GoCrypt.C16
